@@ -416,13 +416,41 @@ class Obligation:
 
 # ----------------------------------------------------------------------------- state
 
-Z3_TIMEOUT_MS = int(os.environ.get("SEGVC_Z3_TIMEOUT_MS", "20000"))
-MBQI_TIMEOUT_MS = int(os.environ.get("SEGVC_MBQI_TIMEOUT_MS", "8000"))
-SEQ_Z3_TIMEOUT_MS = int(os.environ.get("SEGVC_SEQ_Z3_TIMEOUT_MS", "4000"))
+# Budgets are *resource limits* (z3's deterministic rlimit counter), so that a verdict does not depend on how busy the
+# machine is; the wall-clock timeouts are generous backstops only.  Calibration on this image: ~5e6 rlimit units per
+# second for the quantified queries of the specs.
+Z3_TIMEOUT_MS = int(os.environ.get("SEGVC_Z3_TIMEOUT_MS", "120000"))
+MBQI_TIMEOUT_MS = int(os.environ.get("SEGVC_MBQI_TIMEOUT_MS", "60000"))
+Z3_RLIMIT = int(os.environ.get("SEGVC_Z3_RLIMIT", "40000000"))
+MBQI_RLIMIT = int(os.environ.get("SEGVC_MBQI_RLIMIT", "20000000"))
+FEAS_RLIMIT = int(os.environ.get("SEGVC_FEAS_RLIMIT", "2000000"))
+COVER_RLIMIT = int(os.environ.get("SEGVC_COVER_RLIMIT", "6000000"))
+BOUNDED_RLIMIT = int(os.environ.get("SEGVC_BOUNDED_RLIMIT", "30000000"))
+SEQ_Z3_TIMEOUT_MS = int(os.environ.get("SEGVC_SEQ_Z3_TIMEOUT_MS", "30000"))
 CVC5_TIMEOUT_MS = int(os.environ.get("SEGVC_CVC5_TIMEOUT_MS", "30000"))
+SEQ_Z3_RLIMIT = int(os.environ.get("SEGVC_SEQ_Z3_RLIMIT", "4000000"))
 QI_BOUND = int(os.environ.get("SEGVC_QI_BOUND", "30000"))
-COVER_TIMEOUT_MS = int(os.environ.get("SEGVC_COVER_TIMEOUT_MS", "2500"))
-FEAS_TIMEOUT_MS = int(os.environ.get("SEGVC_FEAS_TIMEOUT_MS", "500"))
+COVER_TIMEOUT_MS = int(os.environ.get("SEGVC_COVER_TIMEOUT_MS", "20000"))
+FEAS_TIMEOUT_MS = int(os.environ.get("SEGVC_FEAS_TIMEOUT_MS", "10000"))
+
+
+STATS = bool(os.environ.get("SEGVC_STATS"))
+_MAX_RL = [0]
+
+
+def _rl(solver):
+    st = solver.statistics()
+    for k in st.keys():
+        if k == "rlimit count":
+            return st.get_key_value(k)
+    return 0
+
+
+def _note_rl(d):
+    if d > _MAX_RL[0]:
+        _MAX_RL[0] = d
+        with open(os.environ["SEGVC_STATS"], "a") as f:
+            f.write(f"{os.getpid()} max-proved-rlimit {d}\n")
 
 
 class State:
@@ -511,6 +539,7 @@ class State:
     def feasible(self, cond):
         self.solver.push()
         self.solver.set("timeout", FEAS_TIMEOUT_MS)
+        self.solver.set("rlimit", FEAS_RLIMIT)
         self.solver.add(cond)
         r = self.solver.check()
         self.solver.pop()
@@ -520,6 +549,7 @@ class State:
         """vacuity guard: is the current path condition satisfiable?"""
         t0 = time.time()
         self.solver.set("timeout", Z3_TIMEOUT_MS if full else COVER_TIMEOUT_MS)
+        self.solver.set("rlimit", Z3_RLIMIT if full else COVER_RLIMIT)
         r = self.solver.check()
         if r == z3.unsat:
             return "unsat", time.time() - t0
@@ -529,6 +559,7 @@ class State:
             return "nocontra", time.time() - t0
         s2 = z3.Solver()
         s2.set("timeout", MBQI_TIMEOUT_MS)
+        s2.set("rlimit", MBQI_RLIMIT)
         s2.add(*self.solver.assertions())
         r = s2.check()
         return ("sat" if r == z3.sat else "unsat" if r == z3.unsat else "unknown"), time.time() - t0
@@ -570,9 +601,13 @@ class State:
         t0 = time.time()
         self.solver.push()
         self.solver.set("timeout", SEQ_Z3_TIMEOUT_MS if self.use_cvc5 else Z3_TIMEOUT_MS)
+        self.solver.set("rlimit", SEQ_Z3_RLIMIT if self.use_cvc5 else Z3_RLIMIT)
         self.solver.add(z3.Not(goal))
+        rl0 = _rl(self.solver) if STATS else 0
         r = self.solver.check()
         if r == z3.unsat:
+            if STATS:
+                _note_rl(_rl(self.solver) - rl0)
             self.solver.pop()
             return "proved", time.time() - t0, None, "z3-ematch"
         if self.use_cvc5 and r == z3.unknown:
@@ -599,6 +634,7 @@ class State:
             # cvc5 undecided as well (typically: quantified axioms + sequences): z3 with MBQI may still find a model
             s2 = z3.Solver()
             s2.set("timeout", MBQI_TIMEOUT_MS)
+            s2.set("rlimit", MBQI_RLIMIT)
             s2.add(*assertions)
             r2 = s2.check()
             dt = time.time() - t0
@@ -617,6 +653,7 @@ class State:
         self.solver.pop()
         s2 = z3.Solver()
         s2.set("timeout", MBQI_TIMEOUT_MS)
+        s2.set("rlimit", MBQI_RLIMIT)
         s2.add(*assertions)
         r2 = s2.check()
         dt = time.time() - t0
@@ -624,7 +661,7 @@ class State:
             return "proved", dt, None, "z3-mbqi"
         if r2 == z3.sat:
             return "refuted", dt, s2.model(), "z3-mbqi model"
-        if "timeout" in reason1 or "canceled" in reason1 or "resource" in reason1:
+        if "timeout" in reason1 or "canceled" in reason1 or "resource" in reason1 or "max" in reason1:
             # stage 3: E-matching did not saturate within the budget (instantiation blow-up over the many heap
             # snapshots).  Ask again with a bounded number of instantiations: `unsat` is still a proof; otherwise the
             # bounded run's model is a *candidate* counter-model (the obligation is reported refuted, the replay file
@@ -634,6 +671,7 @@ class State:
             s3.set("smt.auto_config", False)
             s3.set("smt.qi.max_instances", QI_BOUND)
             s3.set("timeout", Z3_TIMEOUT_MS)
+            s3.set("rlimit", BOUNDED_RLIMIT)
             s3.add(*assertions)
             t3 = time.time()
             r3 = s3.check()
@@ -642,9 +680,9 @@ class State:
             if r3 == z3.unsat:
                 return "proved", dt, None, "z3-ematch-bounded"
             reason3 = s3.reason_unknown() if r3 == z3.unknown else "sat"
-            # hitting the instantiation bound is reported by z3 as "canceled" too; it is told apart from a timeout by
-            # the time the run took
-            if t3 < 0.8 * Z3_TIMEOUT_MS / 1000.0:
+            # hitting the instantiation bound is reported by z3 as "canceled"; exhausting the resource limit as
+            # "max. resource limit exceeded"; a wall-clock timeout as "timeout"
+            if not ("resource" in reason3 or "timeout" in reason3) and t3 < 0.8 * Z3_TIMEOUT_MS / 1000.0:
                 try:
                     cand = s3.model()
                 except z3.Z3Exception:
